@@ -55,7 +55,7 @@ def sign_of(c):
 def run(chk):
     w = C.world_for(chk)
     from . import ctors as _ctors
-    _ctors.run(chk, w)
+    _ctors.run(chk, w, only=["PositionalWeight::new", "with_boundary"])
     for rid, txt in (("R01.1", "threshold table: >0 -> WordBoundary, else NotWordBoundary, one store per boundary, never Unknown"),
                      ("R01.2", "padding/resize/zip/accessor forms"), ("R01.3", "scorer pipeline and dispatcher totality"),
                      ("R01.4", "daachorse iterator <-> merged weights pairing"), ("R01.5", "add_score position and offset forms"),
@@ -274,6 +274,8 @@ def pairing(chk, w):
         for bb, t in cfgmod.calls(bd):
             c = cfgmod.callee(t) or ""
             if c.startswith("daachorse::") and "::find" in c and c.endswith("iter"):
+                if "trainer::" in bd.fn:
+                    continue   # feature extraction of the trainers is C10's subject (R10.3 dict:all-matches), not the predictor's
                 users.setdefault(bd.fn, []).append((bb, c.split("::")[-1]))
     for fn, lst in sorted(users.items()):
         b = w.body(fn)
@@ -301,7 +303,7 @@ def pairing(chk, w):
                 chk.ob("R01.4", "%s:%s" % (fn.split("::")[-2], itname), False,
                        "%s uses daachorse iterator %s: occurrences of n-grams that overlap other matches are not all reported" % (fn, itname), site=C.site(b, bb))
     chk.floor("R01.4", "merged scorers", merged, 4, other=2)
-    chk.floor("R01.4", "raw (all-matches) users", raw, 2, other=0)
+    chk.floor("R01.4", "raw (all-matches) users", raw, 1, other=0)
 
 
 def offsets(chk, w):
